@@ -305,7 +305,7 @@ Theorem discard_chunk_resume (cfg : config) (c : conn) (n : N) (payload rest : b
   t_closed (c_t c) = false ->
   tstream (c_t c) = payload ++ rest -> blen payload = n ->
   exists t',
-    discard_chunk cfg c n = upd_t c t' /\
+    discard_chunk cfg c n = (upd_t c t', []) /\
     tstream t' = rest /\ t_limit t' = cf_max_line cfg /\ t_closed t' = false /\
     tterm t' = tterm (c_t c).
 Proof.
@@ -315,15 +315,37 @@ Proof.
   rewrite Hc. eexists. split; [reflexivity|]. repeat split; assumption.
 Qed.
 
+(* the stream ends (or a read fails) before the declared octets have been
+   read: what could be read is consumed, and the connection is CLOSED - the
+   rest of the chunk, should it arrive later, is not run as commands *)
 Theorem discard_chunk_short (cfg : config) (c : conn) (n : N) :
   t_closed (c_t c) = false -> blen (tstream (c_t c)) < n ->
   exists t',
-    discard_chunk cfg c n = upd_t c t' /\
+    discard_chunk cfg c n = do_close (upd_t c t') /\
     t_buf t' = [] /\ t_raw t' = raws_after (t_raw (c_t c)) /\ t_limit t' = cf_max_line cfg.
 Proof.
   intros Hcl Hn. unfold discard_chunk.
   destruct (copy_n_short (set_limit (c_t c) 0) n) as (t1 & Hc & Hb & Hr & _); [exact Hcl|reflexivity|exact Hn|].
   rewrite Hc. eexists. split; [reflexivity|]. repeat split; assumption.
+Qed.
+
+(* in general: discardChunk either skips the declared octets and adds no event,
+   or closes the connection *)
+Definition discard_c (cfg : config) (c : conn) (size : N) : conn := fst (discard_chunk cfg c size).
+Definition discard_ev (cfg : config) (c : conn) (size : N) : list event := snd (discard_chunk cfg c size).
+
+Lemma discard_pair cfg c size : discard_chunk cfg c size = (discard_c cfg c size, discard_ev cfg c size).
+Proof. unfold discard_c, discard_ev. destruct (discard_chunk cfg c size); reflexivity. Qed.
+
+Lemma discard_cases cfg c size :
+  (discard_short c size = false /\
+   discard_c cfg c size = upd_t c (discard_t cfg c size) /\ discard_ev cfg c size = [])
+  \/ (discard_short c size = true /\
+      discard_c cfg c size = close_c (upd_t c (discard_t cfg c size)) /\
+      discard_ev cfg c size = close_ev c).
+Proof.
+  unfold discard_c, discard_ev. rewrite discard_chunk_eq.
+  destruct (discard_short c size); [right|left]; cbn [fst snd]; rewrite ?close_ev_upd_t; auto.
 Qed.
 
 (* ====================================================================== *)
@@ -376,20 +398,22 @@ Definition bdat_fed (cfg : config) (c : conn) (size : N) (last : bool)
     end in
   match err with
   | Some (e, pe) =>
-      let '(_, _, t1) :=
+      let '(_, derr, t1) :=
         match werr, cerr with
         | None, Some _ => t_copy_n (size - blen chunk) t1
-        | _, _ => ([], None, t1)
+        | _, _ => ([], cerr, t1)
         end in
+      let short := match derr with Some _ => true | None => false end in
       let c1 := upd_bdat (upd_t c0 t1) (Some b1) in
       let '(c2, evr, closeit) :=
         if last && cf_lmtp cfg then
           let '(b2, ev2) := bd_end b1 pe in
           let '(rs, _) := bdat_lmtp_replies cfg b2 e in
-          (upd_bdat c1 (Some b2), ev2 ++ rs, match werr with Some _ => bd_panics b1 | None => false end)
+          (upd_bdat c1 (Some b2), ev2 ++ rs,
+           (match werr with Some _ => bd_panics b1 | None => false end) || short)
         else
           let '(code, ec, msg) := data_error_to_status e in
-          (c1, [reply code ec msg], match werr with Some _ => bd_panics b1 | None => false end) in
+          (c1, [reply code ec msg], (match werr with Some _ => bd_panics b1 | None => false end) || short) in
       let '(c3, ev3) := if closeit then do_close c2 else (c2, []) in
       let '(c4, ev4) := do_reset c3 in
       (upd_t c4 (set_limit (c_t c4) (cf_max_line cfg)), ev0 ++ ev1 ++ evr ++ ev3 ++ ev4)
@@ -451,20 +475,24 @@ Definition bdat_classify (cfg : config) (c : conn) (arg : bytes) : bdat_verdict 
       end
   end.
 
-(* handle_bdat, branch by branch *)
+(* handle_bdat, branch by branch.  A refused chunk: the reply, then what
+   discardChunk does (nothing more, or Close: [discard_cases]). *)
 Theorem handle_bdat_cases (cfg : config) (c : conn) (arg : bytes) :
   match bdat_classify cfg c arg with
   | BvSyntax => exists w, handle_bdat cfg c arg = (c, [EWire w])
   | BvNoEnvelope size =>
       handle_bdat cfg c arg
-      = (discard_chunk cfg c size, [reply 502 (5, 5, 1)%Z (bs "Missing RCPT TO command.")])
+      = (discard_c cfg c size,
+         reply 502 (5, 5, 1)%Z (bs "Missing RCPT TO command.") :: discard_ev cfg c size)
   | BvBadLast size =>
       handle_bdat cfg c arg
-      = (discard_chunk cfg c size, [reply 501 (5, 5, 4)%Z (bs "Unknown BDAT argument")])
+      = (discard_c cfg c size,
+         reply 501 (5, 5, 4)%Z (bs "Unknown BDAT argument") :: discard_ev cfg c size)
   | BvOverLimit size =>
       handle_bdat cfg c arg
-      = (reset_c (discard_chunk cfg c size),
-         [reply 552 (5, 3, 4)%Z (bs "Max message size exceeded")] ++ reset_ev c)
+      = (reset_c (discard_c cfg c size),
+         [reply 552 (5, 3, 4)%Z (bs "Max message size exceeded")]
+         ++ discard_ev cfg c size ++ reset_ev (discard_c cfg c size))
   | BvNilSession => handle_bdat cfg c arg = (c, [EPanic])
   | BvAccept size last =>
       handle_bdat cfg c arg
@@ -476,13 +504,14 @@ Proof.
   destruct (fields arg) as [|a0 more]; [eexists; reflexivity|].
   destruct (parse_uint 32 a0) as [size| |] eqn:Ep.
   2,3: destruct more as [|a1 [|a2 more]]; eexists; reflexivity.
+  rewrite (discard_pair cfg c size).
   destruct (negb (c_from c) || match c_rcpts c with [] => true | _ :: _ => false end) eqn:Eenv.
   { destruct more as [|a1 [|a2 more]]; [reflexivity|reflexivity|eexists; reflexivity]. }
   unfold bdat_last_ok.
   destruct more as [|a1 [|a2 more]]; [| |eexists; reflexivity].
   - (* no LAST *)
     fold (bdat_over cfg c size). destruct (bdat_over cfg c size).
-    + rewrite do_reset_eq. rewrite (discard_chunk_eq cfg c size) at 2. reflexivity.
+    + rewrite do_reset_eq. reflexivity.
     + destruct (negb (c_session c) && match c_bdat c with None => true | Some _ => false end); [reflexivity|].
       fold (bdat_start cfg c). unfold bdat_fed.
       pose proof (bdat_start_t cfg c) as Ht.
@@ -490,7 +519,7 @@ Proof.
       destruct (t_copy_n size (set_limit (c_t c) 0)) as [[chunk cerr] t1]. reflexivity.
   - destruct (equal_fold a1 (bs "LAST")); [|reflexivity].
     fold (bdat_over cfg c size). destruct (bdat_over cfg c size).
-    + rewrite do_reset_eq. rewrite (discard_chunk_eq cfg c size) at 2. reflexivity.
+    + rewrite do_reset_eq. reflexivity.
     + destruct (negb (c_session c) && match c_bdat c with None => true | Some _ => false end); [reflexivity|].
       fold (bdat_start cfg c). unfold bdat_fed.
       pose proof (bdat_start_t cfg c) as Ht.
@@ -524,14 +553,15 @@ Proof.
   destruct (bd_feed b0 chunk) as [[b1 ev1] werr].
   destruct c as [t ph be h se er bm fr rc da cl tl bd rv]. cs.
   destruct werr as [e|]; [|destruct cerr as [te|]].
-  1: (cbv beta iota; exists t1; split; [left; reflexivity|]).
-  2: (cbv beta iota; destruct (t_copy_n (size - blen chunk) t1) as [[dg de] t1d] eqn:Edisc;
-      exists t1d; split; [right; split; [discriminate|reflexivity]|]).
+  1: (cbv beta iota zeta; exists t1; split; [left; reflexivity|]).
+  2: (cbv beta iota zeta; destruct (t_copy_n (size - blen chunk) t1) as [[dg de] t1d] eqn:Edisc;
+      exists t1d; split; [right; split; [discriminate|reflexivity]|]; cbv beta iota zeta).
   1,2: destruct (last && cf_lmtp cfg);
        [ match goal with |- context [bd_end ?b ?pe] => destruct (bd_end b pe) as [b2 ev2] end;
          match goal with |- context [bdat_lmtp_replies ?a ?b ?e] => destruct (bdat_lmtp_replies a b e) as [rs pk] end
        | match goal with |- context [data_error_to_status ?e] => destruct (data_error_to_status e) as [[code ec] msg] end ];
-       try (destruct (bd_panics b1));
+       cbv beta iota zeta;
+       match goal with |- context [if ?b then do_close _ else _] => destruct b end;
        rewrite ?do_close_eq; cbv beta iota; rewrite ?do_reset_eq; cbn; auto 10.
   exists t1. split; [left; reflexivity|].
   destruct last; cbn [negb].
@@ -621,9 +651,9 @@ Proof.
   destruct (discard_chunk_resume cfg c n payload rest Hcl Hs Hn) as (td & Hd & Hd1 & Hd2 & Hd3 & Hd4).
   destruct (bdat_classify cfg c arg) as [|s|s|s| |s last]; try subst s.
   - contradiction.
-  - rewrite Hc, Hd. cs. auto 10.
-  - rewrite Hc, Hd. cs. auto 10.
-  - rewrite Hc, Hd. destruct c; cbn. auto 10.
+  - rewrite Hc. unfold discard_c, discard_ev. rewrite Hd. cs. auto 10.
+  - rewrite Hc. unfold discard_c, discard_ev. rewrite Hd. cs. auto 10.
+  - rewrite Hc. unfold discard_c, discard_ev. rewrite Hd. destruct c; cbn. auto 10.
   - destruct Hsz as (H1 & H2 & _). rewrite (Hse H2) in H1. discriminate.
   - rewrite Hc.
     destruct (copy_n_exact (set_limit (c_t c) 0) n payload rest) as (t1 & Hcp & Hr & Hcl1 & _ & Ht);
@@ -644,13 +674,15 @@ Proof.
   destruct (H1 Hc eq_refl) as (_ & H & _). congruence.
 Qed.
 
-(* the refusals: the reply is the only event, no octet of the chunk reaches
-   the backend or the command parser *)
+(* the refusals: the reply, then discardChunk; no octet of the chunk reaches
+   the backend or the command parser.  When the stream holds the declared
+   octets the reply is the only event ([bdat_refusal_complete]); when it does
+   not, the connection is closed ([bdat_refusal_short]) *)
 Theorem bdat_refused_no_envelope cfg c arg a0 more n :
   fields arg = a0 :: more -> (List.length more <= 1)%nat -> parse_uint 32 a0 = POk n ->
   c_from c = false \/ c_rcpts c = [] ->
   handle_bdat cfg c arg
-  = (discard_chunk cfg c n, [reply 502 (5, 5, 1)%Z (bs "Missing RCPT TO command.")]).
+  = (discard_c cfg c n, reply 502 (5, 5, 1)%Z (bs "Missing RCPT TO command.") :: discard_ev cfg c n).
 Proof.
   intros Hf Hl Hp He. pose proof (handle_bdat_cases cfg c arg) as Hc.
   unfold bdat_classify in Hc. rewrite Hf, Hp in Hc.
@@ -663,7 +695,7 @@ Theorem bdat_refused_bad_last cfg c arg a0 a1 n :
   fields arg = [a0; a1] -> parse_uint 32 a0 = POk n ->
   c_from c = true -> c_rcpts c <> [] -> equal_fold a1 (bs "LAST") = false ->
   handle_bdat cfg c arg
-  = (discard_chunk cfg c n, [reply 501 (5, 5, 4)%Z (bs "Unknown BDAT argument")]).
+  = (discard_c cfg c n, reply 501 (5, 5, 4)%Z (bs "Unknown BDAT argument") :: discard_ev cfg c n).
 Proof.
   intros Hf Hp Hfr Hrc Hl. pose proof (handle_bdat_cases cfg c arg) as Hc.
   unfold bdat_classify in Hc. rewrite Hf, Hp, Hfr in Hc. cbn [negb orb bdat_last_ok] in Hc.
@@ -675,8 +707,9 @@ Theorem bdat_refused_over_limit cfg c arg a0 more n last :
   c_from c = true -> c_rcpts c <> [] -> bdat_last_ok more = Some last ->
   cf_max_bytes cfg <> 0%Z -> (cf_max_bytes cfg < c_received c + Z.of_N n)%Z ->
   handle_bdat cfg c arg
-  = (reset_c (discard_chunk cfg c n),
-     [reply 552 (5, 3, 4)%Z (bs "Max message size exceeded")] ++ reset_ev c).
+  = (reset_c (discard_c cfg c n),
+     [reply 552 (5, 3, 4)%Z (bs "Max message size exceeded")]
+     ++ discard_ev cfg c n ++ reset_ev (discard_c cfg c n)).
 Proof.
   intros Hf Hl Hp Hfr Hrc Hlast Hm Hover. pose proof (handle_bdat_cases cfg c arg) as Hc.
   unfold bdat_classify in Hc. rewrite Hf, Hp, Hfr, Hlast in Hc. cbn [negb orb] in Hc.
@@ -686,6 +719,32 @@ Proof.
     - apply negb_true_iff. apply Z.eqb_neq. exact Hm.
     - apply Z.ltb_lt. exact Hover. }
   rewrite Ho in Hc. destruct more as [|a1 [|a2 more]]; [exact Hc|exact Hc|cbn in Hl; lia].
+Qed.
+
+(* the stream holds the declared octets: they are skipped, no event is added *)
+Theorem bdat_refusal_complete cfg c n payload rest :
+  t_closed (c_t c) = false -> tstream (c_t c) = payload ++ rest -> blen payload = n ->
+  exists t',
+    discard_c cfg c n = upd_t c t' /\ discard_ev cfg c n = [] /\
+    tstream t' = rest /\ t_limit t' = cf_max_line cfg /\ t_closed t' = false /\
+    tterm t' = tterm (c_t c).
+Proof.
+  intros Hcl Hs Hn. destruct (discard_chunk_resume cfg c n payload rest Hcl Hs Hn) as (t' & Hd & H).
+  exists t'. unfold discard_c, discard_ev. rewrite Hd. auto.
+Qed.
+
+(* the stream ends, or a read fails, inside the declared octets: the
+   connection is closed (a running delivery is aborted, the session logged
+   out), so whatever arrives later is not run as commands *)
+Theorem bdat_refusal_short cfg c n :
+  t_closed (c_t c) = false -> blen (tstream (c_t c)) < n ->
+  c_closed (discard_c cfg c n) = true /\ t_closed (c_t (discard_c cfg c n)) = true /\
+  c_session (discard_c cfg c n) = false /\ c_bdat (discard_c cfg c n) = None /\
+  discard_ev cfg c n = close_ev c.
+Proof.
+  intros Hcl Hn. destruct (discard_chunk_short cfg c n Hcl Hn) as (t' & Hd & _).
+  unfold discard_c, discard_ev. rewrite Hd, do_close_eq. cbn [fst snd].
+  rewrite close_ev_upd_t. destruct c; cbn. auto.
 Qed.
 
 (* ====================================================================== *)
@@ -1339,8 +1398,8 @@ Proof.
   { intros rv H. split; [exact H|discriminate]. }
   destruct c as [t ph be h se er bm fr rc da cl tl bd rv]. cs. unfold bdat_bounded.
   destruct werr as [e|]; [|destruct cerr as [te|]].
-  1: cbv beta iota.
-  2: (cbv beta iota; destruct (t_copy_n (size - blen chunk) t1) as [[dg de] t1d] eqn:Edisc).
+  1: cbv beta iota zeta.
+  2: (cbv beta iota zeta; destruct (t_copy_n (size - blen chunk) t1) as [[dg de] t1d] eqn:Edisc; cbv beta iota zeta).
   1,2: destruct (last && cf_lmtp cfg);
        [ match goal with |- context [bd_end ?b ?pe] =>
            destruct (end_bounded N b pe Hb1N) as [Hev2 Hg2]; destruct (bd_end b pe) as [b2 ev2] end;
@@ -1350,7 +1409,8 @@ Proof.
            destruct (bdat_lmtp_replies a b e) as [rs pk] end;
          cbn [fst] in Hrs
        | match goal with |- context [data_error_to_status ?e] => destruct (data_error_to_status e) as [[code ec] msg] end ];
-       try (destruct (bd_panics b1));
+       cbv beta iota zeta;
+       match goal with |- context [if ?b then do_close _ else _] => destruct b end;
        rewrite ?do_close_eq; cbv beta iota; rewrite ?do_reset_eq;
        unfold close_c, close_ev, reset_c, reset_ev, reply; cs;
        (split; [|split; [apply Hbb0; lia|lia]]);
@@ -1394,13 +1454,20 @@ Proof.
   pose proof (handle_bdat_cases cfg c arg) as Hc.
   destruct (bdat_classify cfg c arg) as [|s|s|s| |s last] eqn:Ecl.
   - destruct Hc as [w ->]. split; [split; assumption|]. split; [assumption|]. repeat constructor.
-  - rewrite Hc, discard_chunk_eq. destruct c; cs. split; [split; assumption|]. split; [assumption|].
-    repeat constructor.
-  - rewrite Hc, discard_chunk_eq. destruct c; cs. split; [split; assumption|]. split; [assumption|].
-    repeat constructor.
-  - rewrite Hc, discard_chunk_eq. unfold reset_c. cs.
-    split; [unfold bdat_bounded; cbn; split; [lia|discriminate]|]. split; [lia|].
-    apply Forall_app. split; [repeat constructor|apply reset_bounded; exact HbN].
+  - rewrite Hc. destruct (discard_cases cfg c s) as [(_ & -> & ->)|(_ & -> & ->)].
+    + destruct c; cs. split; [split; assumption|]. split; [assumption|]. repeat constructor.
+    + split; [split; [destruct c; exact Hrv|destruct c; discriminate]|]. split; [destruct c; exact HrvN|].
+      constructor; [exact I|apply close_bounded; exact HbN].
+  - rewrite Hc. destruct (discard_cases cfg c s) as [(_ & -> & ->)|(_ & -> & ->)].
+    + destruct c; cs. split; [split; assumption|]. split; [assumption|]. repeat constructor.
+    + split; [split; [destruct c; exact Hrv|destruct c; discriminate]|]. split; [destruct c; exact HrvN|].
+      constructor; [exact I|apply close_bounded; exact HbN].
+  - rewrite Hc. destruct (discard_cases cfg c s) as [(_ & -> & ->)|(_ & -> & ->)]; unfold reset_c; cs.
+    + split; [unfold bdat_bounded; cbn; split; [lia|discriminate]|]. split; [lia|].
+      apply Forall_app. split; [repeat constructor|]. apply reset_bounded. destruct c; exact HbN.
+    + split; [unfold bdat_bounded; cbn; split; [lia|discriminate]|]. split; [lia|].
+      apply Forall_app. split; [repeat constructor|]. apply Forall_app. split; [apply close_bounded; exact HbN|].
+      apply reset_bounded. destruct c; discriminate.
   - rewrite Hc. split; [split; assumption|]. split; [assumption|]. repeat constructor.
   - rewrite Hc.
     assert (Hov : bdat_over cfg c s = false).
@@ -1433,21 +1500,23 @@ Proof. intros H. cbn [abort_ev]. unfold bd_end. rewrite H. reflexivity. Qed.
 Lemma abort_ev_done b v : bd_done b = Some v -> abort_ev (Some b) = [].
 Proof. intros H. cbn [abort_ev]. unfold bd_end. rewrite H. reflexivity. Qed.
 
-(* 552: the chunk is skipped (bdat_resume), the delivery aborted, the
-   envelope and the count reset *)
-Theorem bdat_over_limit cfg c arg a0 more n last :
+(* 552, the declared octets being there: the chunk is skipped (bdat_resume),
+   the delivery aborted, the envelope and the count reset *)
+Theorem bdat_over_limit cfg c arg a0 more n last payload rest :
   fields arg = a0 :: more -> (List.length more <= 1)%nat -> parse_uint 32 a0 = POk n ->
   c_from c = true -> c_rcpts c <> [] -> bdat_last_ok more = Some last ->
   cf_max_bytes cfg <> 0%Z -> (cf_max_bytes cfg < c_received c + Z.of_N n)%Z ->
+  t_closed (c_t c) = false -> tstream (c_t c) = payload ++ rest -> blen payload = n ->
   let '(c', ev) := handle_bdat cfg c arg in
   ev = [reply 552 (5, 3, 4)%Z (bs "Max message size exceeded")]
        ++ abort_ev (c_bdat c) ++ (if c_session c then [EReset] else []) /\
   c_bdat c' = None /\ c_received c' = 0%Z /\ c_from c' = false /\ c_rcpts c' = [] /\
   c_closed c' = c_closed c /\ c_session c' = c_session c.
 Proof.
-  intros Hf Hl Hp Hfr Hrc Hlast Hm Hover.
+  intros Hf Hl Hp Hfr Hrc Hlast Hm Hover Hcl Hs Hn.
   rewrite (bdat_refused_over_limit cfg c arg a0 more n last Hf Hl Hp Hfr Hrc Hlast Hm Hover).
-  rewrite discard_chunk_eq. destruct c; cbn. auto 10.
+  destruct (bdat_refusal_complete cfg c n payload rest Hcl Hs Hn) as (t' & -> & -> & _).
+  destruct c; cbn. auto 10.
 Qed.
 
 (* ====================================================================== *)
@@ -1548,8 +1617,8 @@ Proof.
   destruct (bd_feed b0 chunk) as [[b1 ev1] werr]. cbn [fst snd] in *.
   rewrite <- Hr0, <- Hr1.
   destruct werr as [e|]; [|destruct cerr as [te|]].
-  1: cbv beta iota.
-  2: (cbv beta iota; destruct (t_copy_n (size - blen chunk) t1) as [[dg de] t1d] eqn:Edisc).
+  1: cbv beta iota zeta.
+  2: (cbv beta iota zeta; destruct (t_copy_n (size - blen chunk) t1) as [[dg de] t1d] eqn:Edisc; cbv beta iota zeta).
   1,2: destruct (last && cf_lmtp cfg);
        [ match goal with |- context [bd_end ?b ?pe] =>
            destruct (cw_end b pe) as [Hw2 Hr2]; destruct (bd_end b pe) as [b2 ev2] end;
@@ -1559,7 +1628,8 @@ Proof.
            destruct (bdat_lmtp_replies a b e) as [rs pk] end;
          cbn [fst] in Hrs
        | match goal with |- context [data_error_to_status ?e] => destruct (data_error_to_status e) as [[code ec] msg] end ];
-       try (destruct (bd_panics b1));
+       cbv beta iota zeta;
+       match goal with |- context [if ?b then do_close _ else _] => destruct b end;
        rewrite ?do_close_eq; cbv beta iota; rewrite ?do_reset_eq; cbn [snd];
        cw_simpl; rewrite ?Hw0, ?Hw1, ?Hw2, ?Hrs, ?Hr2; cbn; lia.
   destruct last; cbn [negb andb].
@@ -1577,6 +1647,12 @@ Proof.
       rewrite ?Hw0, ?Hw1, ?Hw2; cbn; lia.
 Qed.
 
+Lemma cw_cons_wire w l : count_wires (EWire w :: l) = S (count_wires l).
+Proof. reflexivity. Qed.
+
+Lemma cw_discard cfg c s : count_wires (discard_ev cfg c s) = 0%nat.
+Proof. destruct (discard_cases cfg c s) as [(_ & _ & ->)|(_ & _ & ->)]; [reflexivity|apply cw_close]. Qed.
+
 (* the number of replies handle_bdat writes, branch by branch *)
 Definition bdat_reply_count (cfg : config) (c : conn) (arg : bytes) : nat :=
   match bdat_classify cfg c arg with
@@ -1591,9 +1667,9 @@ Proof.
   unfold bdat_reply_count. pose proof (handle_bdat_cases cfg c arg) as Hc.
   destruct (bdat_classify cfg c arg) as [|s|s|s| |s last].
   - destruct Hc as [w ->]. reflexivity.
-  - rewrite Hc. reflexivity.
-  - rewrite Hc. reflexivity.
-  - rewrite Hc. cbn [snd]. cw_simpl. reflexivity.
+  - rewrite Hc. cbn [snd]. unfold reply. rewrite cw_cons_wire, cw_discard. reflexivity.
+  - rewrite Hc. cbn [snd]. unfold reply. rewrite cw_cons_wire, cw_discard. reflexivity.
+  - rewrite Hc. cbn [snd]. cw_simpl. rewrite ?cw_discard. reflexivity.
   - rewrite Hc. reflexivity.
   - rewrite Hc. destruct (t_copy_n s (set_limit (c_t c) 0)) as [[chunk cerr] t1].
     rewrite bdat_fed_count. destruct last; [|reflexivity]. cbn [andb]. reflexivity.
@@ -1720,8 +1796,8 @@ Proof.
   pose proof (ne_feed b0 chunk) as Hev1.
   destruct (bd_feed b0 chunk) as [[b1 ev1] werr]. cbn [fst snd] in *.
   destruct werr as [e|]; [|destruct cerr as [te|]].
-  1: cbv beta iota.
-  2: (cbv beta iota; destruct (t_copy_n (size - blen chunk) t1) as [[dg de] t1d] eqn:Edisc).
+  1: cbv beta iota zeta.
+  2: (cbv beta iota zeta; destruct (t_copy_n (size - blen chunk) t1) as [[dg de] t1d] eqn:Edisc; cbv beta iota zeta).
   1,2: destruct (last && cf_lmtp cfg);
        [ match goal with |- context [bd_end ?b ?pe] =>
            assert (Hev2 : Forall not_eof (snd (bd_end b pe)))
@@ -1733,10 +1809,14 @@ Proof.
            destruct (bdat_lmtp_replies a b e) as [rs pk] end;
          cbn [fst] in Hrs
        | match goal with |- context [data_error_to_status ?e] => destruct (data_error_to_status e) as [[code ec] msg] end ];
-       try (destruct (bd_panics b1));
+       cbv beta iota zeta;
+       match goal with |- context [if ?b then do_close _ else _] => destruct b end;
        rewrite ?do_close_eq; cbv beta iota; rewrite ?do_reset_eq; cbn [snd]; unfold reply; fne.
   destruct Hcut as [-> | Hcut]; [|exfalso; apply Hcut; reflexivity]. cbn [negb snd]. unfold reply. fne.
 Qed.
+
+Lemma ne_discard cfg c s : Forall not_eof (discard_ev cfg c s).
+Proof. destruct (discard_cases cfg c s) as [(_ & _ & ->)|(_ & _ & ->)]; [constructor|apply ne_close]. Qed.
 
 (* C07, BDAT half: if handle_bdat lets the backend's reader report
    end-of-file, then the command was an accepted BDAT ... LAST and the copy
@@ -1753,9 +1833,10 @@ Proof.
   pose proof (handle_bdat_cases cfg c arg) as Hc.
   destruct (bdat_classify cfg c arg) as [|s|s|s| |s last].
   - exfalso. apply Hno. destruct Hc as [w ->]. repeat constructor.
-  - exfalso. apply Hno. rewrite Hc. repeat constructor.
-  - exfalso. apply Hno. rewrite Hc. repeat constructor.
-  - exfalso. apply Hno. rewrite Hc. cbn [snd]. unfold reply. fne.
+  - exfalso. apply Hno. rewrite Hc. cbn [snd]. constructor; [exact I|apply ne_discard].
+  - exfalso. apply Hno. rewrite Hc. cbn [snd]. constructor; [exact I|apply ne_discard].
+  - exfalso. apply Hno. rewrite Hc. cbn [snd]. unfold reply.
+    apply Forall_app. split; [repeat constructor|]. apply Forall_app. split; [apply ne_discard|apply ne_reset].
   - exfalso. apply Hno. rewrite Hc. repeat constructor.
   - destruct (t_copy_n s (set_limit (c_t c) 0)) as [[chunk cerr] t1] eqn:Ecp.
     destruct last; [destruct cerr as [te|]|].
@@ -1808,24 +1889,31 @@ Qed.
 
 (* ... and in SMTP mode / on a non-LAST chunk, with a backend that was still
    reading: the reply is 554, the delivery is aborted with ErrDataReset after
-   having yielded exactly what had arrived, the transaction is reset, and the
-   discard has run on behind the failing read. *)
+   having yielded exactly what had arrived, and the discard has run on behind
+   the failing read.  If it found the rest of the declared octets there, the
+   transaction is reset and commands resume behind them; if it did not (the
+   stream ended, or the read failed again: an expired deadline stays expired),
+   the connection is CLOSED. *)
 Theorem bdat_chunk_cut cfg c p pan got arg n last :
   transfer_at cfg c p pan got -> dp_stop p = None ->
   bdat_arg arg n last -> within_limit cfg c n -> last && cf_lmtp cfg = false ->
   t_closed (c_t c) = false -> blen (tstream (c_t c)) < n ->
   let '(c', ev) := handle_bdat cfg c arg in
-  ev = start_events c
-       ++ [reply 554 (5, 0, 0)%Z
-             (bs "Error: transaction failed: "
-              ++ match tterm (c_t c) with TEof => bs "unexpected EOF" | e => terr_text e end);
-           EDelivery (got ++ tstream (c_t c)) (Some RDataReset) (plan_ret p (Some RDataReset)) pan;
-           EReset] /\
+  let r554 := reply 554 (5, 0, 0)%Z
+                (bs "Error: transaction failed: "
+                 ++ match tterm (c_t c) with TEof => bs "unexpected EOF" | e => terr_text e end) in
+  let del := EDelivery (got ++ tstream (c_t c)) (Some RDataReset) (plan_ret p (Some RDataReset)) pan in
   c_bdat c' = None /\ c_received c' = 0%Z /\ c_from c' = false /\ c_rcpts c' = [] /\
-  c_closed c' = c_closed c /\
   exists t1,
     t_buf t1 = [] /\ t_raw t1 = raws_after (t_raw (c_t c)) /\ t_closed t1 = false /\ t_limit t1 = 0 /\
-    c_t c' = set_limit (snd (t_copy_n (n - blen (tstream (c_t c))) t1)) (cf_max_line cfg).
+    match t_copy_n (n - blen (tstream (c_t c))) t1 with
+    | (_, None, td) =>
+        ev = start_events c ++ [r554; del; EReset] /\ c_closed c' = c_closed c /\
+        c_t c' = set_limit td (cf_max_line cfg)
+    | (_, Some _, td) =>
+        ev = start_events c ++ [r554; del; ELogout; EClose] /\ c_closed c' = true /\
+        c_session c' = false /\ c_t c' = set_limit (set_closed td) (cf_max_line cfg)
+    end.
 Proof.
   intros Ht Hs Ha Hw Hll Hcl Hn.
   pose proof (handle_bdat_cases cfg c arg) as Hc.
@@ -1841,18 +1929,26 @@ Proof.
                 = (554, (5, 0, 0), bs "Error: transaction failed: "
                      ++ match tterm (c_t c) with TEof => bs "unexpected EOF" | e => terr_text e end)%Z).
   { destruct (tterm (c_t c)); reflexivity. }
-  rewrite Hst. cbv beta iota.
-  destruct (t_copy_n (n - blen (tstream (c_t c))) t1) as [[dg de] t1d] eqn:Edisc.
-  cbv beta iota. rewrite do_reset_eq. unfold reset_c, reset_ev.
-  destruct c as [t ph be h se er bm fr rc da cl tl bd rv]. cs. subst.
-  rewrite abort_ev_running by reflexivity. cbn [app fst snd].
-  repeat (split; [reflexivity|]).
-  exists t1. cs. rewrite Edisc. repeat split; assumption.
+  rewrite Hst. cbv beta iota zeta.
+  destruct (t_copy_n (n - blen (tstream (c_t c))) t1) as [[dg [de|]] t1d] eqn:Edisc;
+    cbv beta iota zeta; cbn [orb]; cbv beta iota.
+  - (* the discard was short too: Close *)
+    rewrite do_close_eq. cbv beta iota. rewrite do_reset_eq. unfold reset_c, reset_ev, close_c, close_ev.
+    destruct c as [t ph be h se er bm fr rc da cl tl bd rv]. cs. subst.
+    rewrite abort_ev_running by reflexivity. cbn [app fst snd abort_ev].
+    repeat (split; [reflexivity|]).
+    exists t1. cs. rewrite Edisc. repeat split; assumption.
+  - rewrite do_reset_eq. unfold reset_c, reset_ev.
+    destruct c as [t ph be h se er bm fr rc da cl tl bd rv]. cs. subst.
+    rewrite abort_ev_running by reflexivity. cbn [app fst snd].
+    repeat (split; [reflexivity|]).
+    exists t1. cs. rewrite Edisc. repeat split; assumption.
 Qed.
 
 (* the two outcomes of that discard, at the level of streams: the schedule
    behind the failing read delivers the missing octets - then the commands
-   resume right behind them - or it ends first *)
+   resume right behind them - or it ends first - then the connection is
+   closed *)
 Corollary bdat_chunk_cut_resume cfg c p pan got arg n last p2 rest' :
   transfer_at cfg c p pan got -> dp_stop p = None ->
   bdat_arg arg n last -> within_limit cfg c n -> last && cf_lmtp cfg = false ->
@@ -1860,16 +1956,18 @@ Corollary bdat_chunk_cut_resume cfg c p pan got arg n last p2 rest' :
   raws_bytes (raws_after (t_raw (c_t c))) = p2 ++ rest' ->
   blen p2 = n - blen (tstream (c_t c)) ->
   tstream (c_t (fst (handle_bdat cfg c arg))) = rest' /\
-  t_limit (c_t (fst (handle_bdat cfg c arg))) = cf_max_line cfg.
+  t_limit (c_t (fst (handle_bdat cfg c arg))) = cf_max_line cfg /\
+  c_closed (fst (handle_bdat cfg c arg)) = c_closed c.
 Proof.
   intros Ht Hs Ha Hw Hll Hcl Hn Hs2 Hp2.
   pose proof (bdat_chunk_cut cfg c p pan got arg n last Ht Hs Ha Hw Hll Hcl Hn) as H.
-  destruct (handle_bdat cfg c arg) as [c' ev]. cbn [fst].
-  destruct H as (_ & _ & _ & _ & _ & _ & t1 & Hb1 & Hr1 & Hcl1 & Hl1 & Hct).
+  destruct (handle_bdat cfg c arg) as [c' ev]. cbn [fst]. cbv zeta in H.
+  destruct H as (_ & _ & _ & _ & t1 & Hb1 & Hr1 & Hcl1 & Hl1 & H).
   destruct (copy_n_exact t1 (n - blen (tstream (c_t c))) p2 rest') as (t2 & Hcp & Hr2 & _);
     [exact Hcl1|exact Hl1| |exact Hp2|].
   { unfold tstream at 1. rewrite Hb1, Hr1. exact Hs2. }
-  rewrite Hct, Hcp. cbn [snd]. split; [exact Hr2|reflexivity].
+  rewrite Hcp in H. destruct H as (_ & Hclosed & Hct).
+  rewrite Hct. split; [exact Hr2|]. split; [reflexivity|exact Hclosed].
 Qed.
 
 Corollary bdat_chunk_cut_again cfg c p pan got arg n last :
@@ -1878,16 +1976,94 @@ Corollary bdat_chunk_cut_again cfg c p pan got arg n last :
   t_closed (c_t c) = false -> blen (tstream (c_t c)) < n ->
   blen (raws_bytes (raws_after (t_raw (c_t c)))) < n - blen (tstream (c_t c)) ->
   t_buf (c_t (fst (handle_bdat cfg c arg))) = [] /\
-  t_raw (c_t (fst (handle_bdat cfg c arg))) = raws_after (raws_after (t_raw (c_t c))).
+  t_raw (c_t (fst (handle_bdat cfg c arg))) = raws_after (raws_after (t_raw (c_t c))) /\
+  c_closed (fst (handle_bdat cfg c arg)) = true /\
+  t_closed (c_t (fst (handle_bdat cfg c arg))) = true /\
+  c_session (fst (handle_bdat cfg c arg)) = false.
 Proof.
   intros Ht Hs Ha Hw Hll Hcl Hn Hs2.
   pose proof (bdat_chunk_cut cfg c p pan got arg n last Ht Hs Ha Hw Hll Hcl Hn) as H.
-  destruct (handle_bdat cfg c arg) as [c' ev]. cbn [fst].
-  destruct H as (_ & _ & _ & _ & _ & _ & t1 & Hb1 & Hr1 & Hcl1 & Hl1 & Hct).
+  destruct (handle_bdat cfg c arg) as [c' ev]. cbn [fst]. cbv zeta in H.
+  destruct H as (_ & _ & _ & _ & t1 & Hb1 & Hr1 & Hcl1 & Hl1 & H).
   destruct (copy_n_short t1 (n - blen (tstream (c_t c)))) as (t2 & Hcp & Hb2 & Hr2 & _);
     [exact Hcl1|exact Hl1| |].
   { unfold tstream at 1. rewrite Hb1, Hr1. exact Hs2. }
-  rewrite Hct, Hcp. cbn [snd]. rewrite <- Hr1. split; assumption.
+  rewrite Hcp in H. destruct H as (_ & Hclosed & Hsess & Hct).
+  rewrite Hct. cbn [set_limit set_closed t_buf t_raw t_closed]. rewrite <- Hr1.
+  repeat split; assumption.
+Qed.
+
+(* ---------------------------------------------------------------------- *)
+(* A chunk that could not be read completely closes the connection (F30)   *)
+(* ---------------------------------------------------------------------- *)
+
+(* at the level of bdat_fed: the copy stopped at a failing read, and the
+   discard behind it - which runs only if the backend was still reading -
+   would not obtain the rest either *)
+Lemma bdat_fed_short_closes cfg c size last chunk te t1 :
+  snd (fst (t_copy_n (size - blen chunk) t1)) <> None ->
+  let c' := fst (bdat_fed cfg c size last chunk (Some te) t1) in
+  c_closed c' = true /\ t_closed (c_t c') = true /\ c_session c' = false /\ c_bdat c' = None.
+Proof.
+  intros Hshort. unfold bdat_fed. destruct (bdat_start_c cfg c) as [be0 Hc0].
+  destruct (bdat_start cfg c) as [[b0 ev0] c0]. cbn [snd] in Hc0. subst c0.
+  destruct (bd_feed b0 chunk) as [[b1 ev1] werr].
+  destruct c as [t ph be h se er bm fr rc da cl tl bd rv]. cs.
+  destruct werr as [e|].
+  1: cbv beta iota zeta.
+  2: (cbv beta iota zeta; destruct (t_copy_n (size - blen chunk) t1) as [[dg [de|]] t1d];
+      [|exfalso; apply Hshort; reflexivity]; cbv beta iota zeta).
+  1,2: destruct (last && cf_lmtp cfg);
+       [ match goal with |- context [bd_end ?b ?pe] => destruct (bd_end b pe) as [b2 ev2] end;
+         match goal with |- context [bdat_lmtp_replies ?a ?b ?e] => destruct (bdat_lmtp_replies a b e) as [rs pk] end
+       | match goal with |- context [data_error_to_status ?e] => destruct (data_error_to_status e) as [[code ec] msg] end ];
+       cbv beta iota zeta; rewrite ?orb_true_r; cbv beta iota;
+       rewrite do_close_eq; cbv beta iota; rewrite do_reset_eq; cbn; auto.
+Qed.
+
+(* An ACCEPTED chunk, any backend plan, SMTP or LMTP, LAST or not: the stream
+   ends or a read fails before the declared octets have arrived, and what the
+   schedule delivers behind that failure (before it ends or fails again) does
+   not complete the chunk either - in particular: end of the stream (sticky),
+   or an expired read deadline (every read fails until the command loop arms
+   it again).  Then the connection is closed: the transport is shut, the
+   session logged out, and the command loop stops (C08: nothing is read,
+   executed or answered after the first Close). *)
+Theorem bdat_incomplete_chunk_closes cfg c arg n last :
+  bdat_classify cfg c arg = BvAccept n last ->
+  t_closed (c_t c) = false -> blen (tstream (c_t c)) < n ->
+  blen (raws_bytes (raws_after (t_raw (c_t c)))) < n - blen (tstream (c_t c)) ->
+  let c' := fst (handle_bdat cfg c arg) in
+  c_closed c' = true /\ t_closed (c_t c') = true /\ c_session c' = false /\ c_bdat c' = None.
+Proof.
+  intros Hcls Hcl Hn Hn2. pose proof (handle_bdat_cases cfg c arg) as Hc. rewrite Hcls in Hc.
+  destruct (copy_n_short (set_limit (c_t c) 0) n) as (t1 & Hcp & Hb1 & Hr1 & Hcl1 & Hl1);
+    [exact Hcl|reflexivity|exact Hn|].
+  rewrite Hcp in Hc. cbv zeta. rewrite Hc.
+  apply bdat_fed_short_closes.
+  rewrite tstream_set_limit.
+  destruct (copy_n_short t1 (n - blen (tstream (c_t c)))) as (t2 & Hcp2 & _); [exact Hcl1|exact Hl1| |].
+  { unfold tstream at 1. rewrite Hb1, Hr1. exact Hn2. }
+  rewrite Hcp2. discriminate.
+Qed.
+
+(* A REFUSED chunk (no envelope, bad LAST token, over the limit): the stream
+   ends or a read fails before the declared octets have been skipped: closed. *)
+Theorem bdat_incomplete_refused_closes cfg c arg n :
+  match bdat_classify cfg c arg with
+  | BvNoEnvelope s | BvBadLast s | BvOverLimit s => s = n
+  | _ => False
+  end ->
+  t_closed (c_t c) = false -> blen (tstream (c_t c)) < n ->
+  let c' := fst (handle_bdat cfg c arg) in
+  c_closed c' = true /\ t_closed (c_t c') = true /\ c_session c' = false /\ c_bdat c' = None.
+Proof.
+  intros Hcls Hcl Hn. pose proof (handle_bdat_cases cfg c arg) as Hc.
+  destruct (bdat_refusal_short cfg c n Hcl Hn) as (H1 & H2 & H3 & H4 & _).
+  destruct (bdat_classify cfg c arg) as [|s|s|s| |s l]; try contradiction; subst s; cbv zeta; rewrite Hc; cbn [fst].
+  - auto.
+  - auto.
+  - unfold reset_c. cbn. auto.
 Qed.
 
 (* ====================================================================== *)
@@ -2051,11 +2227,11 @@ Proof.
   destruct (bd_new _ _ _). split; reflexivity.
 Qed.
 
-(* the handler's work after the copy does not look at the transport the
-   connection had, and passes the one the copy left through unchanged *)
-Lemma bdat_fed_t_indep cfg c t2 s l ch ce t1 t1' :
-  snd (bdat_fed cfg (upd_t c t2) s l ch ce t1') = snd (bdat_fed cfg c s l ch ce t1) /\
-  same_but_t (fst (bdat_fed cfg c s l ch ce t1)) (fst (bdat_fed cfg (upd_t c t2) s l ch ce t1')).
+(* the handler's work after a complete copy does not look at the transport
+   the connection had, and passes the one the copy left through unchanged *)
+Lemma bdat_fed_t_indep cfg c t2 s l ch t1 t1' :
+  snd (bdat_fed cfg (upd_t c t2) s l ch None t1') = snd (bdat_fed cfg c s l ch None t1) /\
+  same_but_t (fst (bdat_fed cfg c s l ch None t1)) (fst (bdat_fed cfg (upd_t c t2) s l ch None t1')).
 Proof.
   unfold bdat_fed, same_but_t. destruct (bdat_start_upd_t cfg c t2) as [Hf Hs].
   destruct (bdat_start cfg (upd_t c t2)) as [[b0' ev0'] c0'].
@@ -2065,15 +2241,14 @@ Proof.
   rewrite Hc0. generalize (c_t c0'). intros t0'. clear Hs Hc0 Hf.
   destruct (bd_feed b0 ch) as [[b1 ev1] werr].
   destruct c0 as [t ph be h se er bm fr rc da cl tl bd rv]. cs.
-  destruct werr as [e|]; [|destruct ce as [te|]].
-  1: cbv beta iota.
-  2: (cbv beta iota; destruct (t_copy_n (s - blen ch) t1) as [[dg de] t1d];
-      destruct (t_copy_n (s - blen ch) t1') as [[dg' de'] t1d']).
-  1,2: destruct (l && cf_lmtp cfg);
+  destruct werr as [e|].
+  1: cbv beta iota zeta.
+  1: destruct (l && cf_lmtp cfg);
        [ match goal with |- context [bd_end ?b ?pe] => destruct (bd_end b pe) as [b2 ev2] end;
          match goal with |- context [bdat_lmtp_replies ?a ?b ?e] => destruct (bdat_lmtp_replies a b e) as [rs pk] end
        | match goal with |- context [data_error_to_status ?e] => destruct (data_error_to_status e) as [[code ec] msg] end ];
-       try (destruct (bd_panics b1));
+       cbv beta iota zeta;
+       match goal with |- context [if ?b then do_close _ else _] => destruct b end;
        rewrite ?do_close_eq; cbv beta iota; rewrite ?do_reset_eq; cbn; split; reflexivity.
   destruct l; cbn [negb].
   2:{ cbn. split; reflexivity. }
@@ -2108,9 +2283,9 @@ Proof.
   destruct (discard_chunk_resume cfg (upd_t c t2) n payload rest Hcl2' Hs2' Hn) as (td2 & Hd2 & Hr2 & _).
   destruct (bdat_classify cfg c arg) as [|s|s|s| |s last]; try subst s.
   - contradiction.
-  - rewrite Hc1, Hc2, Hd1, Hd2. unfold same_but_t. destruct c; cs. auto.
-  - rewrite Hc1, Hc2, Hd1, Hd2. unfold same_but_t. destruct c; cs. auto.
-  - rewrite Hc1, Hc2, Hd1, Hd2. unfold same_but_t. destruct c; cbn. auto.
+  - rewrite Hc1, Hc2. unfold discard_c, discard_ev. rewrite Hd1, Hd2. unfold same_but_t. destruct c; cs. auto.
+  - rewrite Hc1, Hc2. unfold discard_c, discard_ev. rewrite Hd1, Hd2. unfold same_but_t. destruct c; cs. auto.
+  - rewrite Hc1, Hc2. unfold discard_c, discard_ev. rewrite Hd1, Hd2. unfold same_but_t. destruct c; cbn. auto.
   - destruct Hsz as (H1 & H2 & _). rewrite (Hse H2) in H1. discriminate.
   - rewrite Hc1, Hc2.
     destruct (copy_n_exact (set_limit (c_t c) 0) n payload rest) as (t1 & Hcp1 & Hrr1 & _);
@@ -2118,7 +2293,7 @@ Proof.
     destruct (copy_n_exact (set_limit (c_t (upd_t c t2)) 0) n payload rest) as (t1' & Hcp2 & Hrr2 & _);
       [exact Hcl2'|reflexivity|exact Hs2'|exact Hn|].
     rewrite Hcp1, Hcp2.
-    destruct (bdat_fed_t_indep cfg c t2 n last payload None t1 t1') as [He Hsame].
+    destruct (bdat_fed_t_indep cfg c t2 n last payload t1 t1') as [He Hsame].
     pose proof (bdat_fed_transport cfg c n last payload None t1) as Ht1.
     pose proof (bdat_fed_transport cfg (upd_t c t2) n last payload None t1') as Ht2.
     destruct (bdat_fed cfg c n last payload None t1) as [c1 ev1].
@@ -2291,7 +2466,7 @@ Lemma handle_auth_bounded c arg : BGood c (handle_auth cfg c arg).
 Proof. bstart c. unfold handle_auth, pop_auth. csb. cbv zeta. repeat brk; csb; bleaf. Qed.
 
 Lemma handle_data_bounded c arg : BGood c (handle_data cfg c arg).
-Proof. bstart c. unfold handle_data, pop_data. csb. cbv zeta. repeat brk; csb; bleaf. Qed.
+Proof. bstart c. unfold handle_data, pop_data, close_unless. csb. cbv zeta. repeat brk; csb; bleaf. Qed.
 
 Lemma handle_starttls_bounded c : BGood c (handle_starttls cfg c).
 Proof. bstart c. unfold handle_starttls. csb. cbv zeta. repeat brk; csb; bleaf. Qed.
@@ -2432,7 +2607,7 @@ Lemma handle_auth_ne c arg : NGood (handle_auth cfg c arg).
 Proof. unfold handle_auth, pop_auth. cbv zeta. repeat brkn; nleaf. Qed.
 
 Lemma handle_data_ne c arg : NGood (handle_data cfg c arg).
-Proof. unfold handle_data, pop_data. cbv zeta. repeat brkn; nleaf. Qed.
+Proof. unfold handle_data, pop_data, close_unless. cbv zeta. repeat brkn; nleaf. Qed.
 
 Lemma handle_starttls_ne c : NGood (handle_starttls cfg c).
 Proof. unfold handle_starttls. cbv zeta. repeat brkn; nleaf. Qed.
